@@ -272,7 +272,9 @@ impl Core {
                             if let Err((client_id, message)) = Core::on_new_tls_connection(
                                 context.clone(),
                                 acceptor,
-                                client_addr.ip(),
+                                // an IPv4 peer of a dual-stack listener is reported as
+                                // `::ffff:a.b.c.d`: rules are written for its real address
+                                client_addr.ip().to_canonical(),
                                 client_id,
                             )
                             .await
@@ -524,7 +526,10 @@ impl Core {
         client_id: log_utils::IdChain<u64>,
     ) {
         // Apply connection filtering rules
-        let client_ip = socket.peer_addr().ok().map(|addr| addr.ip());
+        let client_ip = socket
+            .peer_addr()
+            .ok()
+            .map(|addr| addr.ip().to_canonical());
         let client_random = Some(socket.client_random());
 
         if let Err(deny_reason) = Self::evaluate_connection_rules(
